@@ -288,6 +288,27 @@ def check_ext_derived(cx):
         # what must hold: w has exact order 2^s
         ok = E.eq(E.pow(w, 1 << s), E.one()) and (s == 0 or not E.eq(E.pow(w, 1 << (s - 1)), E.one()))
         (rule.ok if ok else rule.bad)(tag + "|TWO_ADIC_ROOT_OF_UNITY.order", "root of unity must have order exactly 2^TWO_ADICITY (= 2^%d; v2(q-1) = %d)" % (s, s_true))
+        # mixed-radix constants lifted from the base field: if a small subgroup is declared, the large-subgroup root
+        # must have order exactly 2^s * b^k in the extension field as well
+        sb = reg.const(r["owner"], "SMALL_SUBGROUP_BASE", "FftField")
+        sk = reg.const(r["owner"], "SMALL_SUBGROUP_BASE_ADICITY", "FftField")
+        lr = reg.const(r["owner"], "LARGE_SUBGROUP_ROOT_OF_UNITY", "FftField")
+        if sb and sk and lr:
+            def opt(v):
+                return v.get("0") if isinstance(v, dict) and v.get("$variant") == "Some" else None
+            b_, k_, L_ = opt(sb["val"]), opt(sk["val"]), opt(lr["val"])
+            if b_ is not None and k_ is not None:
+                if L_ is None:
+                    rule.bad(tag + "|LARGE_SUBGROUP_ROOT_OF_UNITY", "SMALL_SUBGROUP_BASE is set but LARGE_SUBGROUP_ROOT_OF_UNITY is None")
+                else:
+                    inner_ty = r["ty"]
+                    try:
+                        Lv = reg.decode(L_, inner_ty)
+                        order = (1 << s) * b_ ** k_
+                        ok = E.eq(E.pow(Lv, order), E.one()) and not E.eq(E.pow(Lv, order // b_), E.one()) and (s == 0 or not E.eq(E.pow(Lv, order // 2), E.one()))
+                        (rule.ok if ok else rule.bad)(tag + "|LARGE_SUBGROUP_ROOT_OF_UNITY.order", "large-subgroup root of unity must have order exactly 2^%d * %d^%d: get_root_of_unity(n) for n divisible by %d would return an element of smaller order" % (s, b_, k_, b_))
+                    except Exception as e:
+                        rule.undecided(tag + "|LARGE_SUBGROUP_ROOT_OF_UNITY", "not decodable: %s" % e)
         one = reg.const(r["owner"], "ONE")
         zero = reg.const(r["owner"], "ZERO")
         if one and zero:
